@@ -385,9 +385,9 @@ func scenarios(thorough bool) []scenario {
 	var out []scenario
 	var names []string
 	for _, r := range roles {
-		// quick: queryA (a query that overlaps only A), writerC (creates a third segment) and expiredRange are left
+		// quick: queryA (a query that overlaps only A), writerC (creates a third segment), expiredRange and metrics are left
 		// to the thorough tier; they multiply the scenario count without adding a new kind of collision.
-		if !thorough && (r.name == "queryA" || r.name == "writerC" || r.name == "expiredRange") {
+		if !thorough && (r.name == "queryA" || r.name == "writerC" || r.name == "expiredRange" || r.name == "metrics") {
 			continue
 		}
 		names = append(names, r.name)
@@ -475,6 +475,14 @@ func main() {
 		}
 		defer os.RemoveAll(base)
 		deadline := time.Now().Add(budget)
+		if os.Getenv("VERIF_PHASE") == "seq" {
+			depth := 3
+			if thorough {
+				depth = 4
+			}
+			seqWorker(wi, wn, depth, deadline)
+			return
+		}
 		for i, sc := range scs {
 			if i%wn != wi {
 				continue
@@ -539,6 +547,33 @@ func main() {
 		os.Exit(2)
 	}
 	_ = points
+	// ---- Engine O part: sequential operation histories (see seq.go)
+	seqRes, serr := par.Run(16, "VERIF_PHASE=seq")
+	if serr != nil {
+		fmt.Println("HARNESS-ERROR:", serr)
+		os.Exit(2)
+	}
+	seqHist, seqOpsN := 0, 0
+	for _, b := range seqRes {
+		var sr seqResult
+		if err := json.Unmarshal(b, &sr); err != nil {
+			fmt.Println("HARNESS-ERROR: bad seq worker result:", err)
+			os.Exit(2)
+		}
+		seqHist += sr.Histories
+		seqOpsN += sr.Ops
+		if sr.Capped {
+			r.NotExhaustive("deadline hit in the sequential-history part")
+		}
+		for k, ops := range sr.Viol {
+			r.Violation(k, map[string]any{"seq_ops": ops})
+		}
+	}
+	r.Set("sequential_histories", seqHist)
+	r.Set("sequential_operations", seqOpsN)
+	r.Set("sequential_alphabet", seqOps)
+	r.Sample(map[string]any{"sequential_history": []string{"tickRotate", "expiredQuery", "queryOverIdle"}, "judged": "after every operation and after a final idle-reclaim + retention"})
+	execs += seqHist
 	r.Set("states", execs)
 	r.Set("transitions", execs)
 	r.Set("traces_validated_against_impl", execs)
@@ -571,6 +606,21 @@ func replay(p string) {
 	}
 	base, _ = os.MkdirTemp("/dev/shm", "c14r-")
 	defer os.RemoveAll(base)
+	var sq struct {
+		Artefact struct {
+			SeqOps []string `json:"seq_ops"`
+		} `json:"artefact"`
+	}
+	if json.Unmarshal(b, &sq) == nil && len(sq.Artefact.SeqOps) > 0 {
+		viol := runSeqHistory(sq.Artefact.SeqOps, 0)
+		fmt.Println("sequential history:", sq.Artefact.SeqOps)
+		fmt.Println("violations:", viol)
+		if len(viol) > 0 {
+			os.RemoveAll(base)
+			os.Exit(1)
+		}
+		return
+	}
 	seq := 0
 	sched.TraceCallers = true
 	h := setup(a.Artefact.Scenario, &seq)
